@@ -26,7 +26,13 @@ def pi():
     return e.notes["pi"]
 
 
+def _nonfinite(v):
+    return isinstance(v, (float, np.floating)) and not np.isfinite(v)
+
+
 def arccos(v):
+    if _nonfinite(v):
+        return float("nan")  # numpy: arccos(nan) = arccos(+-inf) = nan (and goes on)
     e = E()
     pi()
     c = e.canon(lift(v))
@@ -54,11 +60,15 @@ def _apply(F, t):
 
 
 def cos(v):
+    if _nonfinite(v):
+        return float("nan")
     pi()
     return S(_apply(COS, lift(v)))
 
 
 def sin(v):
+    if _nonfinite(v):
+        return float("nan")
     pi()
     return S(_apply(SIN, lift(v)))
 
